@@ -27,6 +27,8 @@ func init() {
 			"every cycle of every unbounded loop of the recursive-descent parser consumes a real (known non-EOF) token before it returns to the loop head, or leaves the loop (consume / consume-or-report summaries with and without a peeked token, report.HasErrors() edges). " +
 			"Not decided: absence of panics on arbitrary bytes, positions inside the input, print∘parse round-trip equality as values, limit accounting (value level), depth of recursion.",
 		Mutants: []Mutant{
+			{Name: "the exponent sign is not looked for when the number has no fraction (reverts the F82 fix)", File: "v2/pkg/lexer/lexer.go", Rule: "C05-R13", Key: "Lexer.readFloat/exponent-sign-before-digits",
+				Old: "\tif hasReadExponentAlready {\n\t\t// ExponentPart is", New: "\tif hasReadExponentAlready && tok == nil {\n\t\t// ExponentPart is"},
 			{Name: "after a description any token is taken as the name of an input value (reverts the F62 fix)", File: "v2/pkg/astparser/parser.go", Rule: "C05-R12", Key: "Parser.parseInputValueDefinition/name-from-ident-token",
 				Old: "\tinputValueDefinition.Name = p.mustRead(keyword.IDENT).Literal\n", New: "\tinputValueDefinition.Name = p.read().Literal\n"},
 			{Name: "an operation name is read without looking at the token (positive control)", File: "v2/pkg/astparser/parser.go", Rule: "C05-R12", Key: "name-from-ident-token",
@@ -96,6 +98,7 @@ type progressConfig struct {
 func runC05(r *fw.Run) {
 	defer c05ParserRecursionIsBounded(r)
 	defer c05NamesComeFromIdentTokens(r)
+	defer c05ExponentSignOnEveryPath(r)
 
 	// ---- R1 loop progress ------------------------------------------------------------------------
 	r.Rule("C05-R1", "every unbounded loop of the lexer, the tokenizer and the Cache-Control lexer/parser consumes input on each cycle back to its head and has an exit guarded by an end-of-input test")
@@ -2458,4 +2461,160 @@ func c05NamesComeFromIdentTokens(r *fw.Run) {
 		in.Run(nil)
 	}
 	r.Expect("C05-R12", "name fields filled from tokens", n, 25)
+}
+
+// c05ExponentSignOnEveryPath (R13): ExponentPart is ExponentIndicator Sign? Digit+. The lexer reaches the exponent on two
+// paths — from the integer part (1e+5: the indicator is consumed by the caller, which passes a flag) and from the
+// fractional part (1.0e+5: the indicator is consumed in place). On both, the optional sign has to be looked for (the
+// peeked rune compared with SUB / ADD) before the exponent's digits are tested; a path that goes from the indicator
+// straight to the digit test lexes `1e+5` as the float `1e` followed by garbage. Checked per function of package lexer:
+// with the indicator consumed in place (a true comparison with an EXPONENT constant), and — for a function with a
+// boolean parameter that callers feed from such a comparison — under the assumption that the parameter is true.
+func c05ExponentSignOnEveryPath(r *fw.Run) {
+	p := r.Prog
+	r.Rule("C05-R13", "on every path of the lexer from an exponent indicator (consumed in place, or by the caller and announced through a flag) to the test of the exponent's digits, the optional sign has been looked for")
+	pk := p.Pkg("lexer")
+	if pk == nil {
+		r.Error("C05-R13: package lexer not loaded")
+		return
+	}
+	info := pk.TypesInfo
+	isConst := func(e ast.Expr, names ...string) bool {
+		c := fw.ConstObj(info, e)
+		if c == nil {
+			return false
+		}
+		for _, n := range names {
+			if c.Name() == n {
+				return true
+			}
+		}
+		return false
+	}
+	// variables defined from a comparison with an exponent constant
+	expVars := map[types.Object]bool{}
+	for _, fi := range p.Funcs("lexer") {
+		fw.WalkAll(fi.Decl.Body, func(nd ast.Node) bool {
+			as, ok := nd.(*ast.AssignStmt)
+			if !ok || len(as.Lhs) != 1 || len(as.Rhs) != 1 {
+				return true
+			}
+			mentions := false
+			fw.WalkAll(as.Rhs[0], func(m ast.Node) bool {
+				if e, isE := m.(ast.Expr); isE && isConst(e, "EXPONENT_LOWER", "EXPONENT_UPPER") {
+					mentions = true
+				}
+				return true
+			})
+			if id, isID := as.Lhs[0].(*ast.Ident); isID && mentions && info.ObjectOf(id) != nil {
+				if types.Identical(info.TypeOf(id), types.Typ[types.Bool]) {
+					expVars[info.ObjectOf(id)] = true
+				}
+			}
+			return true
+		})
+	}
+	// parameters fed from such a variable
+	flagParams := map[*types.Var]bool{}
+	for _, fi := range p.Funcs("lexer") {
+		fw.WalkAll(fi.Decl.Body, func(nd ast.Node) bool {
+			c, ok := nd.(*ast.CallExpr)
+			if !ok {
+				return true
+			}
+			callee := p.FuncOf(fw.Callee(info, c))
+			if callee == nil {
+				return true
+			}
+			sig := callee.Obj.Type().(*types.Signature)
+			for i, a := range c.Args {
+				if id, isID := ast.Unparen(a).(*ast.Ident); isID && expVars[info.ObjectOf(id)] && i < sig.Params().Len() {
+					flagParams[sig.Params().At(i)] = true
+				}
+			}
+			return true
+		})
+	}
+	n := 0
+	analyse := func(fi *fw.FuncInfo, flag *types.Var) {
+		bad := ""
+		in := fw.NewInterp(fi)
+		in.H = fw.Hooks{
+			Lit: func(l *ast.FuncLit, ctx fw.LitCtx, st *fw.State) fw.LitMode { return fw.LitSkip },
+			Cond: func(e ast.Expr, branch bool, st *fw.State) {
+				e = ast.Unparen(e)
+				if id, isID := e.(*ast.Ident); isID && flag != nil && info.Uses[id] == flag {
+					if !branch {
+						st.Set("settled") // the assumption of this run is contradicted on this edge: no exponent is open
+					}
+					return
+				}
+				if c, isCall := e.(*ast.CallExpr); isCall {
+					if fn := fw.Callee(info, c); fn != nil && fn.Name() == "runeIsDigit" {
+						if in.Final() && !st.Must("settled") && bad == "" {
+							bad = p.Pos(c.Pos())
+						}
+					}
+					return
+				}
+				b, isBin := e.(*ast.BinaryExpr)
+				if !isBin {
+					return
+				}
+				for _, side := range []ast.Expr{b.X, b.Y} {
+					if isConst(side, "SUB", "ADD") {
+						st.Set("settled")
+					}
+					if isConst(side, "EXPONENT_LOWER", "EXPONENT_UPPER") && (b.Op == token.EQL) == branch {
+						st.Kill("settled") // an exponent is open from here on: the sign has to be looked for
+					}
+				}
+			},
+		}
+		// one correlated fact: "no exponent is open, or its sign has been looked for"
+		entry := fw.NewState()
+		if flag == nil {
+			entry.Set("settled")
+		}
+		in.Run(entry)
+		opens := flag != nil
+		fw.WalkAll(fi.Decl.Body, func(nd ast.Node) bool {
+			if e, isE := nd.(ast.Expr); isE && isConst(e, "EXPONENT_LOWER", "EXPONENT_UPPER") {
+				opens = true
+			}
+			return true
+		})
+		digits := false
+		fw.WalkAll(fi.Decl.Body, func(nd ast.Node) bool {
+			if c, ok := nd.(*ast.CallExpr); ok {
+				if fn := fw.Callee(info, c); fn != nil && fn.Name() == "runeIsDigit" {
+					digits = true
+				}
+			}
+			return true
+		})
+		if !opens || !digits {
+			return
+		}
+		n++
+		key := fi.Name() + "/exponent-sign-before-digits"
+		if flag != nil {
+			key += ":" + flag.Name()
+		}
+		r.Check(bad == "", "C05-R13", key, p.Pos(fi.Decl.Pos()), fi.Name()+" looks for the exponent sign before it tests the exponent's digits", "the digit test at "+bad+" is reached from an exponent indicator without the optional sign having been looked for: `1e+5`, `1E-5`, `-2e-3` (IntegerPart ExponentPart with a sign — valid FloatValues) are lexed as the float `1e` followed by garbage, and the operation is rejected")
+	}
+	for _, fi := range p.Funcs("lexer") {
+		sig := fi.Obj.Type().(*types.Signature)
+		var flag *types.Var
+		for i := 0; i < sig.Params().Len(); i++ {
+			if flagParams[sig.Params().At(i)] {
+				flag = sig.Params().At(i)
+			}
+		}
+		if flag != nil {
+			analyse(fi, flag)
+		}
+		analyse(fi, nil)
+	}
+	r.Expect("C05-R13", "paths from an exponent indicator to a digit test", n, 2)
 }
